@@ -21,7 +21,7 @@ from .C14 import stmts_sx
 LEVEL = 'other'
 UNITS = ['src/transform/estimation/FindRigidTransformationByLeastSquares.cpp', 'src/regression/leastsquares/LeastSquares.cpp']
 ENGINES = 'E-ALG + E-SIB + E-WIT over romea-facts'
-TECHNIQUE = 'rows independent of the homogeneous coordinate, guarded row skips judged under the guard, continue statements, row scalings of the design matrix read into the row rule, every path of the estimator: a post-processed result judged by what is stored (orthogonal factor of an SVD is a contract fact), Map rows against the point size, constant result on counts of the quantifier, row count capped by another size fact, tolerance shortcut in front of the decomposition, sweep of every function read (and its in-repo callees) for frozen function-local statics, single precision inside double computations, lossy copy constructors, presence- or argument-keyed member caches, reference members bound to constructor arguments, loop accumulators that are members, members derived in the constructor and not refreshed by setters, results returned by reference to a member buffer, members filled from an argument under a condition that ignores it, hidden non-virtual base members, self-bound reference members, reductions that accumulate in float; must-pass-through to the preconditioner store of the solver on every path of setPreconditioner, double-compensation fact; solver rules of C07 evaluated under this property with its own conditioning bound (P6); writer/reader table agreement by exact algebra: the Jacobian rows written per correspondence are compared with the formal derivative of the model scattered from the solution vector; fetch-role and overload agreement on the instantiated AST'
+TECHNIQUE = 'index guards of a correspondence evaluated on valid correspondences (local closures inlined), list overload run on witness lists (the call it ends with must receive the list), rows independent of the homogeneous coordinate, guarded row skips judged under the guard, continue statements, row scalings of the design matrix read into the row rule, every path of the estimator: a post-processed result judged by what is stored (orthogonal factor of an SVD is a contract fact), Map rows against the point size, constant result on counts of the quantifier, row count capped by another size fact, tolerance shortcut in front of the decomposition, sweep of every function read (and its in-repo callees) for frozen function-local statics, single precision inside double computations, lossy copy constructors, presence- or argument-keyed member caches, reference members bound to constructor arguments, loop accumulators that are members, members derived in the constructor and not refreshed by setters, results returned by reference to a member buffer, members filled from an argument under a condition that ignores it, hidden non-virtual base members, self-bound reference members, reductions that accumulate in float; must-pass-through to the preconditioner store of the solver on every path of setPreconditioner, double-compensation fact; solver rules of C07 evaluated under this property with its own conditioning bound (P6); writer/reader table agreement by exact algebra: the Jacobian rows written per correspondence are compared with the formal derivative of the model scattered from the solution vector; fetch-role and overload agreement on the instantiated AST'
 EXPLANATION = ('For each instantiation the loop body of estimate_ is read symbolically (one generic correspondence), the scatter of the solution into the transform gives the model M(x), and '
                'the written row / residual are compared with the derivative of normal.(M(x) s) and with (t-s).normal; index roles, overload agreement and the preconditioner layout are structural.')
 ASSUMPTIONS = ['homogeneous points carry a unit last coordinate; the normal\'s homogeneous coordinate multiplies (t - s)_w = 0']
